@@ -1021,3 +1021,40 @@ def m_for_each(c):
                 c.I.havoc_through(s2, cap)
         c.I.write_place(s2, c.frame, c.term["dest"], UNIT)
         c.results.append(s2)
+
+
+@model("std::iter::Iterator::try_for_each")
+def m_try_for_each(c):
+    """try_for_each over a slice-like iterator with a closure returning a Try value: one abstract run of the closure on the summary element
+    stands for the iterations (see for_each); the result is that run's result — an Err/Break of some iteration, or the Ok/Continue of the
+    last — or the plain Continue value when there is no element"""
+    from models import _item
+    it, loc = c.arg(0)
+    if isinstance(it, Ref):
+        it, loc = c.deref(it)
+    clo, _ = c.arg(1)
+    if not isinstance(it, Iter) or it.ikind != "slice" or not isinstance(clo, Closure):
+        c.I.default_call(c)
+        return
+    rem = it.remaining if isinstance(it.remaining, Int) else usize()
+    rty = c.ret_ty()
+    unit_ok = None
+    if rty is not None and strip_generics(rty.get("path", "")) == RESULT:
+        unit_ok = res_ok(UNIT)
+    if rem.lo == 0 and unit_ok is not None:
+        s0 = c.fork()
+        c.ret(unit_ok, st=s0)
+    if rem.hi == 0:
+        if unit_ok is None:
+            c.ret_top()
+        return
+    elem = it.elem if it.elem is not None and not it.elem.is_bot() else Top()
+    item = _item(c, c.st, it, elem, "tryforeach")
+    res = c.I.call_closure(c, clo, [(item, None)])
+    if res is None:
+        c.I.default_call(c)
+        return
+    for (s2, rv, rloc, nf) in res:
+        c.I.finish_closure(s2, nf)
+        c.I.write_place(s2, c.frame, c.term["dest"], rv)
+        c.results.append(s2)
